@@ -1,5 +1,6 @@
 import GqlProofs.Validate.WalkBound
 import GqlProofs.Validate.NoPanic
+import GqlProofs.Validate.RuleFuel
 import GqlProofs.Validate.Witness
 /-
   C02 — validation never crashes and terminates (the part that concerns `validator.Validate`
@@ -49,16 +50,32 @@ theorem C02_walk_events_bound (s : Schema) (d : QueryDoc) (evs : List Event) (h 
         ∀ m, validate defaultRules s d ≠ .panic m
 -/
 
-/-- Partial version: every rule list drawn from the 24 modelled rules that contain no Go panic
-    site and no fuelled search (`panicFreeRules`: all modelled rules except ValuesOfCorrectType and
-    its twin, KnownRootType, MaxIntrospectionDepth, NoFragmentCycles, SingleFieldSubscriptions)
-    returns an error list on every schema and document — no panic, no fuel exhaustion.
-    Missing for the full statement: ValuesOfCorrectType is false (below); KnownRootType panics
-    only on an operation kind the parser never produces; for the other three the model's search
-    fuel has not been proved sufficient. -/
+/-- Partial version: every rule list drawn from the 27 modelled rules other than
+    ValuesOfCorrectType, its `…WithoutSuggestions` twin and KnownRootType (`panicFreeRules'`)
+    returns an error list on every schema and document — no panic and no fuel exhaustion; in
+    particular the bounded searches inside MaxIntrospectionDepth (exponential, but terminating:
+    the chain of fragments being visited has pairwise distinct names), SingleFieldSubscriptions
+    and NoFragmentCycles never run out of fuel.
+    Missing for the full statement: ValuesOfCorrectType is false (counterexamples below);
+    KnownRootType panics exactly on an operation kind other than query/mutation/subscription,
+    which the parser never produces (not proved here: needs "operation events carry operations
+    of the document" plus a hypothesis on the document). -/
 theorem C02_validate_no_panic_partial (rs : List Rule) (s : Schema) (d : QueryDoc)
-    (h : ∀ r ∈ rs, r ∈ panicFreeRules) : ∃ errs, validate rs s d = .ok errs :=
-  validateV_neverPanics rs s.view d fun r hr => panicFreeRules_neverPanic r (h r hr)
+    (h : ∀ r ∈ rs, r ∈ panicFreeRules') : ∃ errs, validate rs s d = .ok errs :=
+  validateV_neverPanics rs s.view d fun r hr => panicFreeRules'_neverPanic r (h r hr)
+
+/-- the rules covered by `C02_validate_no_panic_partial`, by name -/
+theorem C02_panic_free_rule_names :
+    panicFreeRules'.map (·.name) =
+      [ "FieldsOnCorrectType", "FragmentsOnCompositeTypes", "KnownArgumentNames", "KnownDirectives",
+        "KnownFragmentNames", "KnownTypeNames", "LoneAnonymousOperation", "NoUndefinedVariables",
+        "NoUnusedFragments", "NoUnusedVariables", "PossibleFragmentSpreads", "ProvidedRequiredArguments",
+        "ScalarLeafs", "UniqueArgumentNames", "UniqueDirectivesPerLocation", "UniqueFragmentNames",
+        "UniqueInputFieldNames", "UniqueOperationNames", "UniqueVariableNames", "VariablesAreInputTypes",
+        "VariablesInAllowedPosition", "FieldsOnCorrectTypeWithoutSuggestions",
+        "KnownArgumentNamesWithoutSuggestions", "KnownTypeNamesWithoutSuggestions",
+        "MaxIntrospectionDepth", "SingleFieldSubscriptions", "NoFragmentCycles" ].map str := by
+  decide
 
 /-- R2a, kernel-checked: `{ f(one: {a: $undef}) }` with `input One @oneOf { a: String }` makes
     ValuesOfCorrectType dereference the nil `VariableDefinition` of the undefined variable. -/
@@ -85,6 +102,7 @@ example : validate [valuesOfCorrectType] Witness.schema Witness.docUsed = .ok []
 #print axioms C02_validate_fuel_suffices
 #print axioms C02_walk_events_bound
 #print axioms C02_validate_no_panic_partial
+#print axioms C02_panic_free_rule_names
 #print axioms C02_validate_no_panic_counterexample_R2a
 #print axioms C02_validate_no_panic_counterexample_R2b
 #print axioms C02_validate_default_panics_R2a
